@@ -530,6 +530,7 @@ def c01(ctx, rep):
         R5.guard(lambda: norm_caches(R5, ctx, cfg, tag))
         R6 = rep.rule('C01.R6u', 'units: returned vectors are in user coordinates')
         R6.guard(lambda: unscale_units(R6, ctx, cfg, tag))
+    premises(ctx, rep, 'C01.R9')
 
 
 def info_update_only(R, ctx, cfg, tag):
@@ -570,6 +571,7 @@ def c02(ctx, rep):
         R.guard(body)
         R5 = rep.rule('C02.R5', 'units: partial residual definitions')
         R5.guard(lambda: residual_definitions(R5, ctx, cfg, tag))
+    premises(ctx, rep, 'C02.R6')
 
 
 def c03(ctx, rep):
@@ -578,6 +580,7 @@ def c03(ctx, rep):
         R = rep.rule('C03.R2', 'units: objective values, residual figures and gaps reported in user units; cached norms unit-free')
         R.guard(lambda: info_update_only(R, ctx, cfg, tag))
         R.guard(lambda: norm_caches(R, ctx, cfg, tag))
+    premises(ctx, rep, 'C03.R7')
 
 
 def c08(ctx, rep):
@@ -600,3 +603,12 @@ def c19(ctx, rep):
         tag = ''
         R = rep.rule('C19.R1u', 'units: exported P, q, A, b are un-equilibrated')
         R.guard(lambda: export_units(R, ctx, cfg, tag))
+
+
+def premises(ctx, rep, rid):
+    """the unit declarations used by the reader-side rules are guarantees of the writers (assume-guarantee):
+    equilibrate establishes them, the update forms and the norm caches maintain them"""
+    for cfg in CFGS:
+        R = rep.rule(rid, 'units premises: equilibrate establishes P~d d c, A~e d, q~d c, b~e; every update form and the cached norms maintain them')
+        R.guard(lambda: equilibrate_invariant(R, ctx, cfg, ''))
+        R.guard(lambda: update_forms(R, ctx, cfg, ''))
